@@ -43,7 +43,7 @@ def gen(seed, tier):
                 yield {"prop": PROP, "d": 0, "dflt": 0, "z": z, "a": a, "acts": acts,
                        "kind": "owned" if k % 2 else "free"}
     rng = random.Random(seed)
-    nrand = 3000 if tier == "quick" else 60000
+    nrand = 12000 if tier == "quick" else 60000
     for i in range(nrand):
         d = rng.choice([0, 1, 1, 2])
         dflt = rng.choice([0, 0, 7])
